@@ -40,7 +40,9 @@ CheckBudget(e) ==
         ELSE \* Budget!FailClosed
              Tag((e.limit > 0 /\ e.ops > e.limit) => e.err, "fail-open")
              \* capacities: the value of the whole program, or an error - never something else
-             \cup Tag((e.hasExpect /\ ~e.err) => (e.ret = e.expect /\ e.rest = ""), "truncated-or-partial"))
+             \cup Tag((e.hasExpect /\ ~e.err) => (e.ret = e.expect /\ e.rest = ""), "truncated-or-partial")
+             \* container length: an array built in one operation has at most `cap` elements, or the operation is an error
+             \cup Tag((e.cap > 0 /\ ~e.err) => e.retInt <= e.cap, "container-cap-exceeded"))
 
 Init == l = 1 /\ bad = <<>>
 Step == /\ l <= Len(Trace)
